@@ -149,6 +149,8 @@ def _prove(hyps, goal, timeout=20000):
 
 
 def verify():
+    from . import smt
+    smt.EXTERNAL[0] = True          # quantified facts: run every query in a killable z3 child process
     fn = 'bond_ops.retained_bond_indices'
     out = []
     t0 = time.time()
